@@ -858,11 +858,15 @@ impl Tree {
         let indices = subtree_leaves
             .iter()
             .filter_map(|index| self.get(index).unwrap().name.as_ref())
-            .map(|name| l_index.iter().flatten().position(|n| n == name).unwrap());
+            .map(|name| l_index.iter().flatten().position(|n| n == name));
 
         let mut bitset = FixedBitSet::with_capacity(self.n_leaves());
         for index in indices {
-            bitset.insert(index);
+            // A leaf that is missing from the leaf index means that the index is stale
+            match index {
+                Some(index) if index < bitset.len() => bitset.insert(index),
+                _ => return Err(TreeError::LeafIndexNotInitialized),
+            }
         }
 
         let mut toggled = bitset.clone();
